@@ -32,26 +32,123 @@ def Mark.ws : Mark → Ws
   | .minus => .remove
   | .plus => .preserve
 
-inductive Word where
-  | ifT | endif
+/-! ## tag interiors as token lists -/
+
+/-- tokens of a tag interior -/
+inductive Tok where
+  /-- ASCII whitespace -/
+  | ws (s : List Char)
+  | ident (s : List Char)
+  /-- decimal integer -/
+  | int (ds : List Char)
+  /-- string literal: quote and what stands between the quotes (with backslash escapes) -/
+  | str (q : Char) (body : List Char)
+  /-- single character operator or bracket -/
+  | op (c : Char)
+  /-- two character operator -/
+  | op2 (a b : Char)
   deriving Repr, DecidableEq
 
-/-- blank around a tag interior: `{{ v }}` or, tight, `{{v}}` -/
+def Tok.src : Tok → List Char
+  | .ws s => s
+  | .ident s => s
+  | .int ds => ds
+  | .str q body => q :: (body ++ [q])
+  | .op c => [c]
+  | .op2 a b => [a, b]
+
+def srcs : List Tok → List Char
+  | [] => []
+  | t :: ts => t.src ++ srcs ts
+
+/-- effect on the bracket depth (`paren_balance`) -/
+def Tok.delta : Tok → Int
+  | .op c => (singleOp c).getD 0
+  | _ => 0
+
+def Tok.isWs : Tok → Bool
+  | .ws _ => true
+  | _ => false
+
+/-- the body of a string literal: every backslash escapes the next character (only escapes that
+    `unescape` accepts without looking further: not `\u`, `\x`, octal), no unescaped quote -/
+def strBodyOk (q : Char) : Bool → List Char → Bool
+  | esc, [] => !esc
+  | true, c :: r => !(c = 'u' || c = 'x' || ('0'.toNat ≤ c.toNat && c.toNat ≤ '7'.toNat)) && strBodyOk q false r
+  | false, c :: r => if c = '\\' then strBodyOk q true r else c != q && strBodyOk q false r
+
+/-- value of a decimal digit string -/
+def decVal (ds : List Char) : Nat := ds.foldl (fun v c => v * 10 + (c.toNat - '0'.toNat)) 0
+
+/-- the token is well formed -/
+def Tok.wf : Tok → Bool
+  | .ws s => !s.isEmpty && s.all isAsciiWs
+  | .ident s =>
+    match s with
+    | c :: cs => isIdentStart c && cs.all isIdentCont
+    | [] => false
+  | .int ds => !ds.isEmpty && ds.all isDigit && decide (decVal ds < 340282366920938463463374607431768211456)
+  | .str q body => (q = '\'' || q = '"') && strBodyOk q false body
+  | .op c => (singleOp c).isSome
+  | .op2 a b => twoCharOp a b
+
+/-- the token ends where it is written: the next character does not extend it -/
+def Tok.follow (t : Tok) (next : Option Char) : Bool :=
+  match t, next with
+  | .ident _, some c => !isIdentCont c && decide (c.toNat < 128)
+  | .int _, some c => !(isIdentCont c || c = '.')
+  | .op a, some c => !twoCharOp a c
+  | _, _ => true
+
+/-- at `s` the tag would end: the end delimiter, possibly behind a marker -/
+def endHere (e : List Char) (s : List Char) : Bool :=
+  startsWith e s || match s with
+    | c :: r => (c = '-' || c = '+') && startsWith e r
+    | [] => false
+
+/-- the interior `ts` (followed by `fol`) is read token by token as written and the tag does not
+    end inside it: tokens are well formed and separated, and no token at bracket depth 0 starts
+    with the end delimiter or with a marker directly in front of the end delimiter; the brackets
+    are closed at the end -/
+def interiorOk (e : List Char) : Int → List Tok → List Char → Bool
+  | bal, [], _ => bal == 0
+  | bal, t :: ts, fol =>
+    t.wf && t.follow (srcs ts ++ fol).head? && (t.isWs || bal != 0 || !endHere e (srcs (t :: ts) ++ fol)) &&
+      interiorOk e (bal + t.delta) ts fol
+
+/-! ### the fixed vocabulary of the segment stream -/
+
+/-- `" v "` or, tight, `"v"` -/
+def vocabV (tight : Bool) : List Tok :=
+  if tight then [.ident ['v']] else [.ws [' '], .ident ['v'], .ws [' ']]
+
+/-- `" if t "` or, tight, `"if t"` -/
+def vocabIf (tight : Bool) : List Tok :=
+  if tight then [.ident ['i', 'f'], .ws [' '], .ident ['t']]
+  else [.ws [' '], .ident ['i', 'f'], .ws [' '], .ident ['t'], .ws [' ']]
+
+/-- `" endif "` or, tight, `"endif"` -/
+def vocabEndif (tight : Bool) : List Tok :=
+  if tight then [.ident ['e', 'n', 'd', 'i', 'f']] else [.ws [' '], .ident ['e', 'n', 'd', 'i', 'f'], .ws [' ']]
+
+/-- blank around `raw` / `endraw`: `{% raw %}` or, tight, `{%raw%}` -/
 def pad (tight : Bool) : List Char := if tight then [] else [' ']
 
-def Word.core : Word → List Char
-  | .ifT => ['i', 'f', ' ', 't']
-  | .endif => ['e', 'n', 'd', 'i', 'f']
-
-def Word.src (w : Word) (tight : Bool) : List Char := pad tight ++ (w.core ++ pad tight)
-
 inductive Kind where
-  | var (tight : Bool)
-  | block (w : Word) (tight : Bool)
+  /-- variable tag with its interior -/
+  | var (ts : List Tok)
+  /-- block tag with its interior -/
+  | block (ts : List Tok)
   /-- comment with an arbitrary body (possibly empty, blank, or made of `-`/`+` characters) -/
   | comment (body : List Char)
   /-- raw block: content, right marker of `{% raw %}`, left marker of `{% endraw %}` -/
   | raw (content : List Char) (ri l2 : Mark) (tight : Bool)
+  /-- line statement: prefix and interior; the blanks up to the end of the line and the line break
+      are the beginning of the text that follows -/
+  | lineStmt (ts : List Tok)
+  /-- line comment: prefix and everything up to the end of the line; the line break is the
+      beginning of the text that follows -/
+  | lineComment (body : List Char)
   deriving Repr, DecidableEq
 
 /-- a tag with its outer markers (`l` on the opening side, `r` on the closing side) -/
@@ -66,7 +163,6 @@ structure Tmpl where
   tail : List (Tag × List Char)
   deriving Repr, DecidableEq
 
-def varBody (tight : Bool) : List Char := pad tight ++ ('v' :: pad tight)
 def rawBody (tight : Bool) : List Char := pad tight ++ (rawName ++ pad tight)
 def endrawBody (tight : Bool) : List Char := pad tight ++ (endrawName ++ pad tight)
 
@@ -74,18 +170,22 @@ def endrawBody (tight : Bool) : List Char := pad tight ++ (endrawName ++ pad tig
 def Tag.start (d : Delims) (g : Tag) : List Char :=
   match g.kind with
   | .var _ => d.vs
-  | .block _ _ => d.bs
+  | .block _ => d.bs
   | .comment _ => d.cs
   | .raw _ _ _ _ => d.bs
+  | .lineStmt _ => d.ls
+  | .lineComment _ => d.lc
 
 /-- source after the start delimiter -/
 def Tag.after (d : Delims) (g : Tag) : List Char :=
   match g.kind with
-  | .var tight => g.l.src ++ varBody tight ++ g.r.src ++ d.ve
-  | .block w tight => g.l.src ++ w.src tight ++ g.r.src ++ d.be
+  | .var ts => g.l.src ++ srcs ts ++ g.r.src ++ d.ve
+  | .block ts => g.l.src ++ srcs ts ++ g.r.src ++ d.be
   | .comment body => g.l.src ++ body ++ g.r.src ++ d.ce
   | .raw c ri l2 tight =>
     g.l.src ++ rawBody tight ++ ri.src ++ d.be ++ c ++ d.bs ++ l2.src ++ endrawBody tight ++ g.r.src ++ d.be
+  | .lineStmt ts => srcs ts
+  | .lineComment body => body
 
 def Tag.src (d : Delims) (g : Tag) : List Char := g.start d ++ g.after d
 
@@ -100,6 +200,13 @@ def Tag.blockish (g : Tag) : Bool :=
   match g.kind with
   | .var _ => false
   | _ => true
+
+/-- line statements and line comments -/
+def Tag.isLine (g : Tag) : Bool :=
+  match g.kind with
+  | .lineStmt _ => true
+  | .lineComment _ => true
+  | _ => false
 
 /-! ## the rules -/
 
@@ -128,21 +235,41 @@ def rightCut (cfg : Cfg) (first blockish : Bool) (m : Mark) (t : List Char) : Na
 /-- `t` without its first `l` and last `r` characters (nothing is left when they overlap) -/
 def cut (l r : Nat) (t : List Char) : List Char := (t.drop l).take (t.length - l - r)
 
-/-- what a tag prints: `vm` for a variable, `bm` for a block tag, nothing for a comment, the
-    content for a raw block (a text between two block tags) -/
+/-- what a line statement takes from the text behind it: the blanks up to the end of the line and
+    the line break -/
+def lineCut (t : List Char) : Nat := (t.takeWhile isHws).length + nlLen (t.dropWhile isHws)
+
+/-- the settings that apply to a tag: a line statement / line comment is the block / comment tag
+    occupying its line, i.e. with `trim_blocks` and `lstrip_blocks` on for this tag -/
+def cfgFor (cfg : Cfg) (g : Tag) : Cfg := if g.isLine then { cfg with trim := true, lstrip := true } else cfg
+
+/-- characters removed at the end of the text in front of the tag `g` -/
+def rightCutG (cfg : Cfg) (first : Bool) (g : Tag) (t : List Char) : Nat :=
+  rightCut (cfgFor cfg g) first g.blockish g.l t
+
+/-- characters removed at the start of the text behind the tag `g` -/
+def leftCutG (cfg : Cfg) (g : Tag) (t' : List Char) : Nat :=
+  match g.kind with
+  | .lineStmt _ => lineCut t'
+  | _ => leftCut (cfgFor cfg g) g.blockish g.r t'
+
+/-- what a tag prints: `vm` for a variable, `bm` for a block tag or line statement, nothing for a
+    comment, the content for a raw block (a text between two block tags) -/
 def tagOut (cfg : Cfg) (vm bm : List Char) (g : Tag) : List Char :=
   match g.kind with
   | .var _ => vm
-  | .block _ _ => bm
+  | .block _ => bm
   | .comment _ => []
   | .raw c ri l2 _ => cut (leftCut cfg true ri c) (rightCut cfg false true l2 c) c
+  | .lineStmt _ => bm
+  | .lineComment _ => []
 
 /-- text `t` (whose first `l` characters are removed by the tag on its left), then the rest -/
 def specTail (cfg : Cfg) (vm bm : List Char) : Bool → Nat → List Char → List (Tag × List Char) → List Char
   | _, l, t, [] => t.drop l
   | first, l, t, (g, t') :: rest =>
-    cut l (rightCut cfg first g.blockish g.l t) t ++ tagOut cfg vm bm g ++
-      specTail cfg vm bm false (leftCut cfg g.blockish g.r t') t' rest
+    cut l (rightCutG cfg first g t) t ++ tagOut cfg vm bm g ++
+      specTail cfg vm bm false (leftCutG cfg g t') t' rest
 
 def mapLastText (f : List Char → List Char) : List (Tag × List Char) → List (Tag × List Char)
   | [] => []
@@ -161,21 +288,22 @@ def specRender (cfg : Cfg) (vm bm : List Char) (tm : Tmpl) : List Char :=
 
 /-! ## delimiter-free texts -/
 
+/-- the start delimiters with their markers, in registration order (line prefixes when set) -/
+def startPats (d : Delims) : List (Marker × List Char) :=
+  [(.var, d.vs), (.block, d.bs), (.comment, d.cs)] ++
+    (if d.ls.isEmpty then [] else [(.lineStmt, d.ls)]) ++ (if d.lc.isEmpty then [] else [(.lineComment, d.lc)])
+
 /-- some start delimiter (line prefixes count anywhere) is a prefix of `s` -/
-def anyStart (d : Delims) (s : List Char) : Bool :=
-  startsWith d.vs s || startsWith d.bs s || startsWith d.cs s ||
-    (!d.ls.isEmpty && startsWith d.ls s) || (!d.lc.isEmpty && startsWith d.lc s)
+def anyStart (d : Delims) (s : List Char) : Bool := (startPats d).any (fun mp => startsWith mp.2 s)
 
 /-- no start delimiter begins inside `t` when `t` is followed by `following` -/
 def noStartIn (d : Delims) : List Char → List Char → Bool
   | [], _ => true
   | c :: r, following => !anyStart d (c :: r ++ following) && noStartIn d r following
 
-/-- at a tag start no other start delimiter is longer than the tag's own -/
+/-- at a tag start every other start delimiter that matches is shorter than the tag's own -/
 def ownLongest (d : Delims) (own s : List Char) : Bool :=
-  (!startsWith d.vs s || d.vs.length ≤ own.length) && (!startsWith d.bs s || d.bs.length ≤ own.length) &&
-    (!startsWith d.cs s || d.cs.length ≤ own.length) &&
-    (d.ls.isEmpty || !startsWith d.ls s) && (d.lc.isEmpty || !startsWith d.lc s)
+  (startPats d).all (fun mp => !startsWith mp.2 s || mp.2 == own || decide (mp.2.length < own.length))
 
 /-- no block start begins inside raw content `c` that is followed by `following` -/
 def noBsIn (d : Delims) : List Char → List Char → Bool
@@ -214,26 +342,81 @@ def bodyEndOk (body : List Char) (r : Mark) : Bool :=
     | c :: _ => !isMarkChar c
     | [] => true
 
-/-- a comment reads back as written: its body does not contain the comment end, a body character
-    next to an unmarked side is not itself `-`/`+` (it would be taken for the marker), and an empty
-    body has no marker on the closing side only (`{#-#}` is a comment with a *left* marker) -/
-def commentOk (d : Delims) (g : Tag) (following : List Char) : Bool :=
+/-- interior of a line statement: well-formed separated tokens, brackets closed at the end; at
+    bracket depth 0 blanks contain no line break and are followed by another token (the statement
+    ends at the end of its line) -/
+def lineInteriorOk : Int → List Tok → List Char → Bool
+  | bal, [], _ => bal == 0
+  | bal, t :: ts, fol =>
+    t.wf && t.follow (srcs ts ++ fol).head? &&
+      (!t.isWs || bal != 0 || (t.src.all isHws && !ts.isEmpty && !(ts.head?.map Tok.isWs).getD false)) &&
+      lineInteriorOk (bal + t.delta) ts fol
+
+/-- behind a line statement: blanks, then a line break or the end of the template -/
+def lineFollow (s : List Char) : Bool :=
+  match s.dropWhile isHws with
+  | [] => true
+  | c :: _ => isNl c
+
+/-- behind a line comment: a line break or the end of the template -/
+def commentFollow (s : List Char) : Bool :=
+  match s with
+  | [] => true
+  | c :: _ => isNl c
+
+/-- the marker `find_start_marker` reports for the tag -/
+def Tag.marker (g : Tag) : Marker :=
   match g.kind with
+  | .var _ => .var
+  | .block _ => .block
+  | .comment _ => .comment
+  | .raw _ _ _ _ => .block
+  | .lineStmt _ => .lineStmt
+  | .lineComment _ => .lineComment
+
+/-- the tag reads back as written.
+    * variable / block tag: the interior is a well-formed token list in which the tag does not
+      end early (`interiorOk`), an unmarked opening side is not followed by `-`/`+`, and a block
+      tag is not `raw`;
+    * comment: the body does not contain the comment end, a body character next to an unmarked
+      side is not itself `-`/`+` (it would be taken for the marker), and an empty body has no marker
+      on the closing side only (`{#-#}` is a comment with a *left* marker). -/
+def tagOk (d : Delims) (g : Tag) (following : List Char) : Bool :=
+  match g.kind with
+  | .var ts => interiorOk d.ve 0 ts (g.r.src ++ (d.ve ++ following)) && bodyStartOk (srcs ts) g.l g.r
+  | .block ts =>
+    interiorOk d.be 0 ts (g.r.src ++ (d.be ++ following)) && bodyStartOk (srcs ts) g.l g.r &&
+      !startsWith rawName ((srcs ts ++ (g.r.src ++ (d.be ++ following))).dropWhile isAsciiWs)
   | .comment body =>
     noPatIn d.ce (body ++ g.r.src) (d.ce ++ following) && bodyStartOk body g.l g.r && bodyEndOk body g.r
-  | _ => true
+  | .raw _ _ _ _ => true
+  | .lineStmt ts =>
+    !d.ls.isEmpty && g.l == .none && g.r == .none && lineInteriorOk 0 ts following && lineFollow following
+  | .lineComment body =>
+    !d.lc.isEmpty && g.l == .none && g.r == .none && body.all (fun c => !isNl c) && commentFollow following &&
+      match body ++ following with
+      | c :: _ => !isMarkChar c
+      | [] => true
+
+/-- in front of a line statement there are only spaces and tabs on its line (`first`: the text
+    starts the template) -/
+def lineStartText (first : Bool) (t : List Char) : Bool :=
+  match t.reverse.dropWhile (fun c => c = ' ' || c = '\t') with
+  | [] => first
+  | c :: _ => isNl c
 
 /-- every text is free of start delimiters: the only start markers of the source are its tags
     (`noStartIn` looks at the whole rest of the source, so delimiters that straddle a text and the
-    following tag count) -/
-def tailFree (d : Delims) : List Char → List (Tag × List Char) → Bool
-  | t, [] => noStartIn d t []
-  | t, (g, t') :: rest =>
+    following tag count); every tag reads back as written; a line statement starts its line -/
+def tailFree (d : Delims) : Bool → List Char → List (Tag × List Char) → Bool
+  | _, t, [] => noStartIn d t []
+  | first, t, (g, t') :: rest =>
     noStartIn d t (unparseTail d ((g, t') :: rest)) &&
       ownLongest d (g.start d) (unparseTail d ((g, t') :: rest)) &&
-      rawFree d g (t' ++ unparseTail d rest) && commentOk d g (t' ++ unparseTail d rest) && tailFree d t' rest
+      rawFree d g (t' ++ unparseTail d rest) && tagOk d g (t' ++ unparseTail d rest) &&
+      (g.marker != .lineStmt || lineStartText first t) && tailFree d false t' rest
 
-def delimFree (d : Delims) (tm : Tmpl) : Bool := tailFree d tm.head tm.tail
+def delimFree (d : Delims) (tm : Tmpl) : Bool := tailFree d true tm.head tm.tail
 
 /-! ## well-formed delimiter sets (hypothesis of the general theorems) -/
 
@@ -253,12 +436,23 @@ def startOk : List Char → Bool
   | [] => false
   | c :: _ => !isWs c
 
-/-- delimiter sets covered by the general theorems: no line prefixes, distinct non-empty start
-    delimiters that do not begin with whitespace, end delimiters that begin with a character that
-    is neither whitespace, an identifier character nor a marker and do not end in whitespace -/
+/-- the last character of a start delimiter is not a line break -/
+def endNotNl (p : List Char) : Bool :=
+  match p.reverse with
+  | [] => false
+  | c :: _ => !isNl c
+
+def nodupB : List (List Char) → Bool
+  | [] => true
+  | p :: r => !r.contains p && nodupB r
+
+/-- delimiter sets covered by the general theorems: pairwise distinct non-empty start delimiters
+    (line prefixes included when set) that do not begin with whitespace or end in a line break, end
+    delimiters that begin
+    with a character that is neither whitespace, an identifier character nor a marker and do not
+    end in whitespace -/
 def goodDelims (d : Delims) : Bool :=
-  d.ls.isEmpty && d.lc.isEmpty && startOk d.vs && startOk d.bs && startOk d.cs &&
-    d.vs != d.bs && d.vs != d.cs && d.bs != d.cs &&
+  (startPats d).all (fun mp => startOk mp.2 && endNotNl mp.2) && nodupB ((startPats d).map (·.2)) &&
     headOk d.ve && headOk d.be && headOk d.ce && lastOk d.ve && lastOk d.be && lastOk d.ce
 
 end MJ.Lexer
